@@ -974,17 +974,27 @@ func (n *node) Kill(pid gen.PID) error {
 
 	p := value.(*process)
 	lib.VerifPoint("proc.kill.zombie", pid)
-	state := atomic.SwapInt32(&p.state, int32(gen.ProcessStateZombee))
+	var state int32
+	for {
+		state = atomic.LoadInt32(&p.state)
+		if state == int32(gen.ProcessStateTerminated) {
+			// already terminated. the state must never leave Terminated, not even
+			// for a moment: the goroutine that finalizes the termination (see the
+			// recover handler in process.run) relies on it to do its job only once
+			return nil
+		}
+		if state == int32(gen.ProcessStateZombee) {
+			// already killed. termination is finalized by the process goroutine
+			// (or by the first killer), not here
+			return nil
+		}
+		if atomic.CompareAndSwapInt32(&p.state, state, int32(gen.ProcessStateZombee)) {
+			break
+		}
+	}
 	switch state {
 	case int32(gen.ProcessStateWaitResponse), int32(gen.ProcessStateRunning):
 		// do not unregister process until its goroutine stopped
-		return nil
-	case int32(gen.ProcessStateTerminated):
-		atomic.StoreInt32(&p.state, int32(gen.ProcessStateTerminated))
-		return nil
-	case int32(gen.ProcessStateZombee):
-		// already killed. termination is finalized by the process goroutine
-		// (or by the first killer), not here
 		return nil
 	}
 
